@@ -6,7 +6,8 @@
 
    Mode = "gen":   TLC enumerates every body (sequence of atoms within the bounds), every comment form
                    (plain `--- text` comment, description of a `---@param` tag) and the cursor
-                   boundaries, and prints one case per state.  An atom is a fragment of markup syntax,
+                   boundaries, and prints one case per state (plus the "lines" family of multi-line
+                   bodies, see LineBodies).  An atom is a fragment of markup syntax,
                    terminated or not, some with multi-byte text; <nl> starts a new comment line,
                    <e2>/<e4> stand for a 2-byte / 4-byte character (the glue substitutes them).
    Mode = "judge": the harness has recorded, for every case x description node x flavour x cursor, either
@@ -20,7 +21,13 @@ CONSTANTS Mode,        \* "gen" | "judge"
           MaxLen,      \* bodies of up to MaxLen - 1 arbitrary atoms, and of MaxLen atoms whose inner atoms are glue
           AllCursors,  \* TRUE: a cursor at every atom boundary; FALSE: no cursor and a cursor at the end
           Glue,        \* the atoms allowed inside a body of full length, e.g. {"sp", "nl"}
-          ParamMax     \* the `---@param` form is generated for bodies of at most this many atoms
+          ParamMax,    \* the `---@param` form is generated for bodies of at most this many atoms
+          \* the "lines" family (multi-line bodies whose first line leaves inline state behind, see LineBodies)
+          LOpen,       \* unterminated openers
+          LFill,       \* text atoms that may stand between the opener and the span
+          LSpan,       \* closed inline spans
+          LSep,        \* line separators
+          LFollow      \* what the following line starts with
 
 VARIABLES body, form, idx
 vars == <<body, form, idx>>
@@ -43,6 +50,9 @@ AtomText(a) ==
     [] a = "list" -> "- i"            [] a = "olist" -> "1. i"
     [] a = "javadoc" -> "{@link a.b}" [] a = "at" -> "@"                  [] a = "bslash" -> "\\"
     [] a = "dashes" -> "-----"
+    \* atoms used by the "lines" family only
+    [] a = "us2" -> "__"              [] a = "math" -> "$x$"              [] a = "mystopen" -> "{lua:obj}`a"
+    [] a = "see" -> "see "
 
 Atoms == {"txt", "mb", "sp", "nl", "ind", "blank", "fence", "fencelua", "tfence", "star", "star2", "us", "tick",
           "tick2", "em", "strong", "code", "link", "linkopen", "refdef", "autolink", "html", "lt", "role", "roleopen",
@@ -52,6 +62,19 @@ Forms == {"plain", "param"}
 
 Bodies == UNION {[1..n -> Atoms] : n \in 1..(MaxLen - 1)}
           \cup {b \in [1..MaxLen -> Atoms \cup Glue] : \A i \in 2..(MaxLen - 1) : b[i] \in Glue}
+
+(* The "lines" family: bodies of at least two comment lines whose FIRST line carries inline-parser state to its
+   very end: an unterminated opener (emphasis / code / link / role that is never closed on that line) combined
+   with a closed inline span that is the last thing on the line -- opener before the span (optionally with text
+   in between, optionally after leading text) or the span before a line-final opener -- followed by a line
+   separator and a further line with inline content.  Per-line state that a parser forgets to reset (or resets
+   only on some path, e.g. only when plain text trails the last span) shows on the following line.          *)
+LineBodies ==
+       {<<o, s, g, f>> : o \in LOpen, s \in LSpan, g \in LSep, f \in LFollow}
+  \cup {<<o, t, s, g, f>> : o \in LOpen, t \in LFill, s \in LSpan, g \in LSep, f \in LFollow}
+  \cup {<<"see", o, t, s, g, f>> : o \in LOpen, t \in LFill, s \in LSpan, g \in LSep, f \in LFollow}
+  \cup {<<s, "sp", o, g, f>> : o \in LOpen, s \in LSpan, g \in LSep, f \in LFollow}
+AllBodies == Bodies \cup LineBodies
 
 Cursors(b) == IF AllCursors THEN {-1} \cup (0..Len(b)) ELSE {-1, Len(b)}
 
@@ -68,7 +91,7 @@ OnCharBoundaries(r) == \A i \in 1..Len(r.items) : r.items[i][3] = 1
 
 Rec == IF Mode = "judge" THEN ndJsonDeserialize(IOEnv.DESC_RESULTS) ELSE <<>>
 
-Init == IF Mode = "gen" THEN body \in Bodies /\ form \in Forms /\ (form = "param" => Len(body) <= ParamMax) /\ idx = 0
+Init == IF Mode = "gen" THEN body \in AllBodies /\ form \in Forms /\ (form = "param" => Len(body) <= ParamMax) /\ idx = 0
         ELSE body = <<>> /\ form = "" /\ idx \in 1..Len(Rec)
 Next == UNCHANGED vars
 Spec == Init /\ [][Next]_vars
